@@ -654,7 +654,7 @@ func registerMisc() {
 		}
 		return in.tb.Bool(was), true
 	}
-	for _, n := range []string{"reflect.ValueOf", "reflect.TypeOf", "internal/abi.TypeOf", "internal/reflectlite.ValueOf", "encoding/json.Unmarshal", "encoding/json.Marshal", "encoding/json.MarshalIndent", "reflect.DeepEqual"} {
+	for _, n := range []string{"reflect.ValueOf", "reflect.TypeOf", "internal/reflectlite.ValueOf", "encoding/json.Unmarshal", "encoding/json.Marshal", "encoding/json.MarshalIndent", "reflect.DeepEqual"} {
 		n := n
 		I[n] = func(in *Interp, th *Thread, fn *ssa.Function, args []Value, d func(Value)) (Value, bool) {
 			panic(unsupported{"reflection-based code is not encodable: " + n})
@@ -665,8 +665,38 @@ func registerMisc() {
 		it := types.Typ[types.Int]
 		return in.makeSlice(th, types.NewSlice(types.Typ[types.Uint8]), n, n, it, it), true
 	}
-	I["internal/reflectlite.TypeOf"] = nil
-	delete(I, "internal/reflectlite.TypeOf")
+	// reflectlite.TypeOf(x).Comparable() (used by context.WithValue): the dynamic type is known to the
+	// engine, so the answer is computed from go/types; every other use of the result is unsupported.
+	I["internal/reflectlite.TypeOf"] = func(in *Interp, th *Thread, fn *ssa.Function, args []Value, d func(Value)) (Value, bool) {
+		iv := args[0].(IfaceV)
+		if iv.T == nil {
+			return IfaceV{}, true
+		}
+		rp := in.prog.ImportedPackage("internal/reflectlite")
+		if rp == nil || rp.Type("rtype") == nil {
+			panic(unsupported{"reflectlite.rtype not found"})
+		}
+		rt := rp.Type("rtype").Type()
+		st := rt.Underlying().(*types.Struct)
+		cell := in.newCell(st.Field(0).Type().(*types.Pointer).Elem())
+		in.side[cell] = iv.T
+		return IfaceV{T: rt, V: &StructV{[]Value{mkPtr(in.tb, cell)}}}, true
+	}
+	I["(internal/reflectlite.rtype).Comparable"] = func(in *Interp, th *Thread, fn *ssa.Function, args []Value, d func(Value)) (Value, bool) {
+		sv := args[0].(*StructV)
+		c, _ := sv.F[0].(Ptr).single()
+		t, ok := in.side[c].(types.Type)
+		if !ok {
+			panic(unsupported{"reflectlite type of unknown origin"})
+		}
+		return in.tb.Bool(types.Comparable(t)), true
+	}
+	for _, m := range []string{"Elem", "String", "Kind", "Name", "PkgPath", "Size", "Implements", "AssignableTo"} {
+		m := m
+		I["(internal/reflectlite.rtype)."+m] = func(in *Interp, th *Thread, fn *ssa.Function, args []Value, d func(Value)) (Value, bool) {
+			panic(unsupported{"reflection-based code is not encodable: reflectlite.rtype." + m})
+		}
+	}
 }
 
 func (in *Interp) lookupMethodByName(t types.Type, name string) *ssa.Function {
